@@ -65,6 +65,10 @@ def intSphDivergence (conservative : Bool) (mth : Method) (r : Int → K) (dr : 
 def intPolarDivergence (r : Int → K) (dr : K) (a : Arr K) (n : Nat) : K :=
   sumTo (fun i => volPolar r dr i * polarDivergence r dr a i) n
 
+/-- cylindrical divergence (components `(r, z, φ)`; the stencil is *not* in flux form, see `Props/C05d.lean`) -/
+def intCylDivergence (r : Int → K) (dr dz : K) (a : Arr K) (n m : Nat) : K :=
+  sumTo (fun i => sumTo (fun j => volCyl r dr dz i * cylDivergence r dr dz a i j) m) n
+
 /-! ### the boundary faces of the conserving conditions (what `grid.get_boundary_conditions` builds for
 `"periodic"`, `{"derivative": 0}`, `{"normal_value": 0}`), as input of `BC.setGhostAll` -/
 
